@@ -44,6 +44,8 @@ def kind_cat(kind: str) -> str:
         return 'keyword'
     if cls is ast.withitem:
         return 'withitem'
+    if cls is ast.arguments:
+        return 'arguments'
     return 'other'
 
 
@@ -116,7 +118,14 @@ class RefError(Exception):
 def slot_tag(n):
     if isinstance(n, ast.Name) and n.id.startswith('__FST_'):
         return n.id[6:]
+    if isinstance(n, ast.arg) and n.annotation is None and n.arg.startswith('__FST_'):   # parameter slot
+        return n.arg[6:]
     return None
+
+
+def plain_args(x):
+    return (isinstance(x, ast.arguments) and not x.posonlyargs and not x.kwonlyargs and not x.kw_defaults
+            and not x.defaults and x.vararg is None and x.kwarg is None)
 
 
 def _dots(n):
@@ -190,6 +199,8 @@ class Ref:
                 and slot_tag(t.values[j]) is not None)
         if g is not None and fn == 'values' and pair:
             return g, 2, 'pair'
+        if g is not None and isinstance(c, ast.arg):
+            return g, 1, 'args'
         if g is not None:
             return g, 1, 'expr'
         if fn == 'keys' and pair:
@@ -214,12 +225,18 @@ class Ref:
             return cat == 'stmt'
         if form == 'with':
             return cat == 'withitem'
+        if form == 'args':
+            return (ty == 'node' and cat == 'arguments' and fn == 'args' and plain_args(t)
+                    and plain_args(get(self.root, self.cap_node(m, g))))
         if ty == 'node':
             return cat == 'expr' or (cat == 'keyword' and kind in ('Call', 'ClassDef') and fn == argf)
         if ty != 'seq' or not lst:
             return False
         return ((cat == 'expr' and kind in ('List', 'Tuple', 'Set', 'Call', 'ClassDef') and fn in ('elts', 'args', 'bases'))
                 or (cat in ('arglike', 'keyword') and kind in ('Call', 'ClassDef') and fn == argf))
+
+    def cap_node(self, m, g):
+        return tuple(self.M[m]['p']) if g == '' else self.cap(m, g)['el'][0][0]
 
     def flatten_boolop(self, m, t, fn, g):
         if not (isinstance(t, ast.BoolOp) and fn == 'values' and self.cap_t(m, g) == 'node'):
@@ -244,6 +261,12 @@ class Ref:
             out = []
             for i in range(len(x.values)):
                 out += self.elem_items(m, p + (('values', i),), True)
+            return out
+        if form == 'args' and self.cap_t(m, g) == 'node':
+            p = tuple(self.cap_node(m, g))
+            out = []
+            for i in range(len(get(self.root, p).args)):
+                out += self.elem_items(m, p + (('args', i),), True)
             return out
         return self.cap_items(m, g, lst or form in ('stmt', 'with', 'pair'), comp)
 
@@ -276,9 +299,9 @@ class Ref:
 
     def top_items(self, m, lst):
         mcat = kind_cat(get(self.root, self.M[m]['p']).__class__.__name__)
-        if mcat not in ('stmt', 'expr') or any(kind_cat(c.__class__.__name__) != mcat for c in self.T):
+        if mcat not in ('stmt', 'expr', 'arguments') or any(kind_cat(c.__class__.__name__) != mcat for c in self.T):
             raise RefError('template category does not fit the match')
-        if mcat == 'expr' and len(self.T) != 1:
+        if mcat != 'stmt' and len(self.T) != 1:
             raise RefError('expression template must be one node')
         out = []
         for c in self.T:
